@@ -73,8 +73,8 @@ CHECKS = {
         design="DESIGN.md §4 C13",
     ),
     "C08": dict(
-        rules="R08.1-R08.4",
-        what="every SubtypeContext flag, proper_subtype and state.strict_optional is a component of the subtype memo key; every context/global attribute read by the subtype visitor is keyed; lookups and records address the same entry with the same key and operands and the right polarity; hashed fields of every Type class are compared by __eq__; join/meet tuple siblings share their preamble; the subtype caches are written only by visit_instance and is_protocol_implementation, and in the latter only when the question-changing parameters (class_obj, skip) are excluded",
+        rules="R08.1-R08.5",
+        what="every SubtypeContext flag, proper_subtype and state.strict_optional is a component of the subtype memo key; every context/global attribute read by the subtype visitor is keyed; lookups and records address the same entry with the same key and operands and the right polarity; hashed fields of every Type class are compared by __eq__; join/meet tuple siblings share their preamble; the subtype caches are written only by visit_instance and is_protocol_implementation, and in the latter only when the question-changing parameters (class_obj, skip) are excluded; protocol checks about a class object (TypeType item, instance type of a type object) pass class_obj=True",
         quant="pairs and triples of types",
         technique="who-may-read rule over subtypes.py against the key tuple; sibling cross-check of lookup/record and of __hash__/__eq__",
         note="Reflexivity, transitivity, join/meet bounds and union simplification are value-level laws and are not decided. The unkeyed reads of options.extra_checks/strict_concatenate are tabled as informational (no failing input).",
@@ -97,8 +97,8 @@ CHECKS = {
         design="DESIGN.md §4 C09",
     ),
     "C10": dict(
-        rules="R10.1-R10.3",
-        what="every iteration over a set in mypy/ is consumed order-insensitively (recognised structurally) or individually tabled; every hash()/id()/urandom/time call site classified; every process-global mutable binding reset on the build entry path or tabled",
+        rules="R10.1-R10.5",
+        what="every iteration over a set in mypy/ is consumed order-insensitively (recognised structurally) or individually tabled; every hash()/id()/urandom/time call site classified; every process-global mutable binding reset on the build entry path or tabled; a once-per-build slot is claimed only by a message that is then recorded; a plugin given by path is not taken from sys.modules when that entry came from another file",
         quant="hash seeds, file orders and preceding builds",
         technique="type-directed lint over the resolved program (set-typed iterables by annotation-driven typing), effect classification of loop bodies, reaching reset analysis from build.build",
         note="Independence of the diagnostics from file argument order is not decided. tables/R10.1.json marks sites whose order-insensitivity could not be established by reading as (unproven); they are informational.",
